@@ -153,6 +153,24 @@ def variable_map_shape(prog, rep, rule):
             any(body.term(b)["k"] == "call" and is_callee(body.term(b), r"VacantEntry::<'a, K, V, A>::insert$") for b in vac) and "Err" not in aggs(body, vac, "result::Result")
         rep.check(ok, rule, "VariableMap::add :: shape", f.loc(), "Vacant → insert+Ok; Occupied → Err(VariableAlreadyDefined), unconditionally and without writing",
                   "VariableMap::add no longer refuses every second definition of a name (occupied arm: errors %s, calls %s, branches %s)" % (aggs(body, occ, "variables::VariableError"), occ_calls, any(True for b in occ for g in switch_edges(body, tr, b))))
+    # Globals::add: the same shape (a set of global variables refuses every second definition, and stores every first one)
+    fl = [f for f in prog.shape_fns() if f.name == "add" and f.self_path == "tsg::variables::Globals" and f.kind != "closure"]
+    if len(fl) != 1:
+        rep.violation(rule, "anchor-lost:Globals::add", "", "not found")
+    else:
+        f = fl[0]
+        body, tr = f.body, Tracer(f.body)
+        r = regions(body, tr)
+        occ, vac = r.get("Occupied", set()), r.get("Vacant", set())
+        ins = {b for b in vac if body.term(b)["k"] == "call" and is_callee(body.term(b), r"VacantEntry::<'a, K, V, A>::insert$")}
+        vac_edges = [g for b in sorted(body.reachable()) for g in switch_edges(body, tr, b) if g.variant == "Vacant"]
+        rets = set(body.return_blocks())
+        # every path through the vacant arm stores the value; the occupied arm only fails
+        skips = bool(vac_edges) and bool(body.reach_from([vac_edges[0].dst], avoid=ins) & rets)
+        ok = bool(occ) and bool(ins) and not skips and aggs(body, occ, "variables::VariableError") == ["VariableAlreadyDefined"] and "Ok" not in aggs(body, occ, "result::Result") \
+            and "Err" not in aggs(body, vac, "result::Result")
+        rep.check(ok, rule, "Globals::add :: shape", f.loc(), "Vacant → insert (on every path) + Ok; Occupied → Err(VariableAlreadyDefined)",
+                  "Globals::add does not store every first definition / refuse every second one (a vacant name can return without insert: %s)" % skips)
     fl = [f for f in prog.shape_fns() if f.name == "set" and f.self_path == "tsg::variables::VariableMap" and f.trait == "tsg::variables::MutVariables"]
     if len(fl) != 1:
         rep.violation(rule, "anchor-lost:VariableMap::set", "", "not found")
@@ -469,6 +487,46 @@ def no_dropped_elements(prog, rep, rule="E5.keep", files=("src/execution.rs", "s
             else:
                 rep.violation(rule, key, sp_str(t["sp"]), "%s on a collection of the interpreter in %s: elements (statements, attributes, values, deferred work) can be dropped, merged or reordered" % (op, f.id))
     rep.floor(rule, n, 14, "element-dropping / reordering calls in the interpreters")
+    return n
+
+
+def checker_keeps_ast(prog, rep, rule="E5.ast"):
+    """the loader's checker resolves and annotates the AST, it never removes or reorders what the parser read: a statement, arm,
+    attribute or condition dropped at load time is silently not executed.  (Expected count on the pinned tree: none; the twin rule
+    E5.keep over the interpreters is the positive control — the same patterns match there on every run.)"""
+    rep.rule(rule, "no element-dropping, de-duplicating or reordering call (remove/clear/truncate/pop/drain/retain/dedup/sort/reverse/swap) on a collection in the checker: what the parser read is what gets executed")
+    n = 0
+    for f in sorted(prog.shape_fns(), key=lambda x: x.id):
+        if f.body is None or f.crate.prefix != "tsg" or not f.file.startswith("src/checker"):
+            continue
+        n += 1
+        k = {}
+        tr = None
+        for b, t in f.body.calls():
+            if not is_callee(t, *_SHRINK):
+                continue
+            # only collections that are part of the AST (a field of an ast:: type): local work lists may be sorted or drained
+            tr = tr or Tracer(f.body)
+            try:
+                recv = tr.operand(t["args"][0])
+            except Exception:
+                recv = None
+            in_ast = recv is None
+            e = strip(recv) if recv is not None else None
+            while e is not None and e[0] == "call" and e[3] and re.search(r"(Deref::deref|DerefMut::deref_mut|AsMut::as_mut|BorrowMut::borrow_mut)$", e[1] or ""):
+                e = strip(e[3][0])
+            if e is not None and e[0] == "place" and any(p_[0] == "field" and str(p_[1] or "").startswith("tsg::ast::") for p_ in e[2]):
+                r0 = strip(e[1])
+                in_ast = r0[0] in ("arg", "upvar", "place", "phi", "rec")      # a field of the AST itself, not of a value computed from it
+            if not in_ast:
+                continue
+            op = (callee_fn(t) or {"def": "?"})["def"].rsplit("::", 1)[-1]
+            k[op] = k.get(op, 0) + 1
+            rep.violation(rule, "%s :: %s #%d" % (f.id, op, k[op]), sp_str(t["sp"]),
+                          "%s on a collection in the checker (%s): part of the program the parser read can be dropped or reordered before it is executed" % (op, f.id))
+        if not k:
+            rep.ok(rule, f.id, f.loc(), "no shrinking / reordering call")
+    ctl = prog.control is not None and any(is_callee(t, *_SHRINK) for g in prog.control.fns.values() if g.body is not None for _b, t in g.body.calls())
     return n
 
 
